@@ -313,7 +313,8 @@ func reschedule(me *gthread, canContinue bool) {
 		return
 	}
 	k := 0
-	if len(cands) > 1 {
+	if len(cands) > 1 && tape.Params["ZZDETSCHED"] != 1 {
+		// ZZDETSCHED: the first enabled goroutine (creation order) runs, as in the executor - no decision recorded
 		k = nextSched(len(cands))
 	}
 	if cands[k] == me {
@@ -332,7 +333,18 @@ func switchTo(me, t *gthread) {
 }
 
 func Point() {
-	if len(threads) <= 1 {
+	if len(threads) <= 1 || tape.Params["ZZMARKONLY"] == 1 {
+		return
+	}
+	reschedule(cur, true)
+}
+
+// Mark is a scheduling point at a message boundary: the loader inserts a call at the start of
+// (*process).invokeMsg in both views, and harnesses call it between their own sends. With the harness parameter
+// ZZMARKONLY=1 these are the only points where the running goroutine can be preempted (the ordinary points at
+// synchronisation operations then only switch when the goroutine blocks).
+func Mark() {
+	if len(threads) <= 1 || tape.Params["ZZMARKONLY"] != 1 {
 		return
 	}
 	reschedule(cur, true)
